@@ -16,11 +16,15 @@ for sid in ids:
     if r.returncode != 0:
         print(sid, "PATCH DOES NOT APPLY", r.stderr[:200])
         continue
+    evp = os.path.join(V, "evidence", meta["property"] + ".json")
+    ev_saved = open(evp).read() if os.path.exists(evp) else None
     t0 = time.time()
     try:
         c = subprocess.run([os.path.join(V, "check"), meta["property"], "--tier", os.environ.get("SEED_TIER", "quick")], capture_output=True, text=True, cwd=V)
     finally:
         subprocess.run(["git", "-C", "/repo", "checkout", "--", "."], check=True)
+        if ev_saved is not None:
+            open(evp, "w").write(ev_saved)  # evidence files describe runs against /repo itself, never a seeded change
     lines = [l for l in c.stdout.splitlines() if l.startswith(("VIOLATION", "UNDECIDED", "KNOWN-FINDING"))]
     viol = [l.split("obligation=")[1].split()[0] for l in lines if l.startswith("VIOLATION")]
     und = [l.split("obligation=")[1].split()[0] for l in lines if l.startswith("UNDECIDED")]
